@@ -14,6 +14,23 @@ CHECKS = {
             "Every sentence of the property is a CrossHair condition over the real Loc/Span code with all line/column numbers symbolic "
             "mathematical integers; 'confirmed' means the path tree was exhausted, so the claim is for every coordinate value, two file names.",
             TB + "; CrossHair's model of dataclass/tuple ordering", "DESIGN.md §5 C30", "E1"),
+    "C33": ("model_checking",
+            "CrossHair/z3 symbolic execution of the real experimental.py under all enable/disable/enter/exit scripts up to a bound, compared with a stack model",
+            "All scripts of <=4 (quick) / <=6 (thorough) operations over {with-enable, with-disable, normal exit, exceptional exit, bare enable(), bare disable()} from either "
+            "initial flag are executed symbolically against the real module; after every step flag and all four check_* gates are compared with a stack model. "
+            "The four gated features are driven through the real front end with the flag symbolic. Bounded: longer scripts are outside the claim.",
+            TB + "; the stack model of nesting", "DESIGN.md §5 C33", "E1"),
+    "C23": ("model_checking",
+            "CrossHair/z3 symbolic execution of the real mock_builtins context manager under all nesting/exception schedules within a bound",
+            "The only writer of user globals during comptime tracing (mock_builtins) is executed symbolically for every combination of user bindings of int/float/len in "
+            "two modules, every nesting of up to 2 (quick) / 3 (thorough) traced functions over those modules and every raise point; key order and value identity "
+            "of both globals dicts are compared with the snapshot.",
+            TB + "; assumption that mock_builtins is the only writer of user globals", "DESIGN.md §5 C23", "E1"),
+    "C28": ("model_checking",
+            "CrossHair/z3 symbolic execution of /repo's EmulatorInstance under all derivation scripts up to a bound against a recording SeleneInstance stand-in",
+            "Derivation scripts of <=3 (quick) / 4 (thorough) with_*/..._sim operations, each applied to a symbolic earlier instance, run symbolically; after each step the effective "
+            "run configuration (incl. per-component effective seed as selene computes it) of every earlier instance is re-observed through the real run() and must be unchanged.",
+            TB + "; selene's seed-precedence rule as read from the installed selene_sim", "DESIGN.md §5 C28", "E1"),
 }
 
 NOT_APPLICABLE = {
